@@ -13,8 +13,8 @@ def build(tier):
     pairs = [(i, (i + 1) % 7) for i in range(7)]
     if quick:
         for j, (k, sh) in enumerate(KINDS):
-            obs.append(renders.render_ob("C07.a", k, sh, pairs[j % 7], 1, timeout=400))
-        obs.append(renders.render_ob("C07.a", "function", dict(np=0), (), 1, timeout=400))
+            obs.append(renders.render_ob("C07.a", k, sh, pairs[j % 7], 2, timeout=400))
+        obs.append(renders.render_ob("C07.a", "function", dict(np=0), (), 2, timeout=400))
     else:
         for (k, sh) in KINDS:
             for pr in pairs:
